@@ -28,6 +28,7 @@ Require Import Ctpg.Proofs.GroupingUnique.
 Require Import Ctpg.Proofs.GroupingPure.
 Require Import Ctpg.Proofs.GroupingExamples.
 Require Import Ctpg.Proofs.GroupingPureExamples.
+Require Import Ctpg.Proofs.GenResolved.
 From Coq Require Import Permutation.
 
 (* solve_conflict is the documented rule: reduce iff the rule's precedence is greater, or equal with left associativity *)
@@ -71,6 +72,18 @@ Theorem C05_grouping :
   forall (g : grammar) (sts : list items) (tbl : LRGen.table) (w : list nat) (tr : tree), validate_resolved g sts tbl = true -> no_error_symbol g tbl = true -> tokens_ok g w -> accepts g tbl w tr -> well_grouped g tr.
 Proof. exact grouping. Qed.
 Print Assumptions C05_grouping.
+
+(* THE GENERATOR, for all grammars expressible in the DSL: whenever the mirror of state_analyzer succeeds without reduce/reduce cell (and without the accept/reduce clash of finding D12), its table is the LR(1) automaton with every shift/reduce cell decided by the documented rule (S/R marks allowed) *)
+Theorem C05_generator_resolves_every_conflict_by_the_rule :
+  forall (rg : raw_grammar) (g : grammar) (lim : limits) (sts : list lrstate) (tbl : LRGen.table), analyze rg = Some g -> grammar_wf g = true -> gen_with g lim = inl (sts, tbl) -> no_rr g (length sts) tbl = true -> GenCorrect.accept_clean g sts = true -> validate_resolved g (map st_all sts) tbl = true.
+Proof. exact gen_validates_resolved_analyze. Qed.
+Print Assumptions C05_generator_resolves_every_conflict_by_the_rule.
+
+(* hence every parser generated for such a grammar groups operator expressions as documented, for every input *)
+Theorem C05_generated_parsers_group_by_the_rule :
+  forall (rg : raw_grammar) (g : grammar) (lim : limits) (sts : list lrstate) (tbl : LRGen.table), analyze rg = Some g -> grammar_wf g = true -> gen_with g lim = inl (sts, tbl) -> no_rr g (length sts) tbl = true -> GenCorrect.accept_clean g sts = true -> forall (w : list nat) (tr : tree), tokens_ok g w -> no_error_symbol g tbl = true -> accepts g tbl w tr -> well_grouped g tr.
+Proof. exact gen_groups_analyze. Qed.
+Print Assumptions C05_generated_parsers_group_by_the_rule.
 
 (* and that tree is a derivation tree of the input *)
 Theorem C05_grouping_with_derivation :
